@@ -52,6 +52,8 @@ def fields_used(body, sv):
 
 
 def run(ck, facts, tier):
+    from shared import state
+    state.any_future_answer(ck, facts, "C17.ANY-FUTURE")
     variants = facts.variants("chalk_ir::TyKind")
     au = need_body(ck, facts, "C17.DEFAULT-CONSERVATIVE", AU + "::aggregate_tys")
     mi = need_body(ck, facts, "C17.DEFAULT-CONSERVATIVE", MI + "::aggregate_tys")
